@@ -43,6 +43,7 @@ type Solver struct {
 	seq     int
 	Stats   *SolverStats
 	Log     io.Writer // optional: every query is appended as a standalone script
+	Cross   *crossSampler // optional: sample of decided queries for the cross-solver check
 	LastErr string
 }
 
@@ -245,6 +246,7 @@ func (s *Solver) Check(tb *Table, asserts []*Term, vals []*Term) (Result, []uint
 	default:
 		atomic.AddInt64(&s.Stats.Unknown, 1)
 	}
+	s.Cross.offer(body, res)
 	return res, out
 }
 
